@@ -293,10 +293,16 @@ func vfC12Family(name string) string {
 	switch {
 	case strings.Contains(name, "alphabet"):
 		return "alphabet"
-	case strings.Contains(name, "padd") || strings.Contains(name, "trailing-bits"):
-		return "padding"
-	case strings.Contains(name, "space") || strings.Contains(name, "newline") || strings.Contains(name, "crlf") || strings.Contains(name, "nul"):
-		return "whitespace"
+	case name == "unpadded":
+		return "padding-dropped"
+	case strings.Contains(name, "extra-padding") || name == "only-padding":
+		return "padding-added"
+	case strings.Contains(name, "trailing-bits"):
+		return "noncanonical-trailing-bits"
+	case strings.Contains(name, "newline") || strings.Contains(name, "crlf"):
+		return "line-breaks"
+	case strings.Contains(name, "space") || strings.Contains(name, "nul"):
+		return "other-whitespace"
 	case strings.Contains(name, "junk") || name == "doubled" || name == "quoted":
 		return "junk"
 	case name == "empty" || name == "first-quad-only":
@@ -566,9 +572,65 @@ func TestVerif_C12(t *testing.T) {
 		// A re-encoded text can shift nonce bits into the version byte, so the
 		// "Unsupported state token version N" text would carry random digits.
 		r.errMsg = vfC12NoDigits(r.errMsg)
-		x.Outcome("variant=%s pad=%d same-bytes=%v", tv.name, pad, same)
-		x.Note("variant %s on a %s token with %d padding chars; denotes the minted bytes: %v", tv.name, c.slotName, pad, same)
-		vfC12Judge(x, "C12:text:"+vfC12Family(tv.name)+":"+c.slotName, r, !same, false)
+		// The statement refuses every re-encoded / modified token: only the
+		// minted TEXT itself is "unaltered". Whether the variant still denotes
+		// the minted bytes under a lenient reader is recorded, not excused.
+		verbatim := text == vfC12Enc(c.raw)
+		x.Outcome("variant=%s pad=%d same-text=%v same-bytes=%v", tv.name, pad, verbatim, same)
+		x.Note("variant %s on a %s token with %d padding chars; identical text: %v; denotes the minted bytes under a lenient reader: %v", tv.name, c.slotName, pad, verbatim, same)
+		vfC12Judge(x, "C12:text:"+vfC12Family(tv.name)+":"+c.slotName, r, !verbatim, false)
+	})
+
+	// ---- 5b. every truncation of the token TEXT ---------------------------------
+	//
+	// Space 2 cuts raw bytes and re-encodes canonically; here characters are cut
+	// from the base64 text itself (keep the first t characters / drop the last d
+	// characters), which includes dropping only the '=' tail and cutting inside
+	// a 4-character group. The padding shape is a choice (re-mint until it fits).
+	venum.Explore(t, venum.Cfg{Name: "text-truncation", Shardable: true}, func(x *venum.X) {
+		pad := x.Choose(3, "padding-chars")
+		slot := x.Choose(len(vfC12Slots), "slot")
+		th := vfC12Slots[slot].half*4/3 + 8 // text half: 274 / 208 characters
+		k := x.Choose(2*th-1, "text-length-site")
+		method := x.Pick("method", "ex", "pr")
+		var c *ctx
+		for try := 0; try < 200; try++ {
+			c = setup(x, slot, method)
+			if c == nil {
+				return
+			}
+			if (3-len(c.raw)%3)%3 == pad {
+				break
+			}
+			c = nil
+		}
+		if c == nil {
+			venum.EngineError("C12 harness: no token with %d padding characters in 200 mints", pad)
+			return
+		}
+		text := vfC12Enc(c.raw)
+		if len(text) > 2*th-1 || len(text) < th+4 {
+			venum.EngineError("C12 harness: token text length %d outside the addressing range (half=%d)", len(text), th)
+			return
+		}
+		region := "head-kept"
+		newLen := k
+		if k >= th {
+			d := k - th + 1
+			newLen = len(text) - d
+			switch {
+			case d <= 2:
+				region = "last-1-2-chars-dropped"
+			case d <= 4:
+				region = "last-3-4-chars-dropped"
+			default:
+				region = "tail-dropped"
+			}
+		}
+		r := present(c, text[:newLen], false)
+		r.errMsg = vfC12NoDigits(r.errMsg)
+		x.Note("token text of %d chars (%d padding) cut to %d chars", len(text), pad, newLen)
+		vfC12Judge(x, "C12:text-truncate:"+c.slotName+":"+region, r, true, false)
 	})
 
 	// ---- 6. tokens sealed under other keys ----------------------------------
